@@ -207,7 +207,9 @@ class SmtpRelayClient(RelayPoolClient):
         with Timeout(self.data_timeout):
             send_data = self.client.send_data(
                 header_data, message_data)
-        self.client._flush_pipeline()
+            # With PIPELINING the reply to the message data is only read
+            # here: this wait must be covered by the timeout as well.
+            self.client._flush_pipeline()
         if isinstance(send_data, Reply) and send_data.is_error():
             raise SmtpRelayError.factory(send_data)
         return send_data
